@@ -60,6 +60,15 @@ func c02Props(spec string) []*transfer.TransferProposal {
 	return ps
 }
 
+// c02Snap renders everything of a batch the code under test could write to (the caller's view of its own input).
+func c02Snap(ps []*transfer.TransferProposal) string {
+	var b strings.Builder
+	for _, p := range ps {
+		b.WriteString(utoa(uint64(p.Source)) + "/" + utoa(uint64(p.Destination)) + "/" + utoa(p.Data.DepositNonce) + "/" + hex.EncodeToString(p.Data.ResourceId[:]) + "/" + hx(p.Data.Data) + "/" + p.MessageID + ";")
+	}
+	return b.String()
+}
+
 func c02Str(s string) string {
 	if s == "-" {
 		return ""
@@ -111,11 +120,13 @@ func (t *c02Transactor) Transact(to *ethCommon.Address, data []byte, opts transa
 
 type c02Pallet struct {
 	sigs [][]byte
+	ps   [][]*transfer.TransferProposal
 }
 
 func (b *c02Pallet) IsProposalExecuted(p *transfer.TransferProposal) (bool, error) { return false, nil }
 func (b *c02Pallet) ExecuteProposals(ps []*transfer.TransferProposal, sig []byte) (types.Hash, *author.ExtrinsicStatusSubscription, error) {
 	b.sigs = append(b.sigs, append([]byte{}, sig...))
+	b.ps = append(b.ps, ps)
 	return types.Hash{}, nil, nil
 }
 func (b *c02Pallet) ProposalsHash(ps []*transfer.TransferProposal) ([]byte, error) {
@@ -130,8 +141,13 @@ func c02EvmSig(r, s, rec []byte, ps []*transfer.TransferProposal) ([]byte, bool)
 	e := evmexec.NewExecutor(nil, nil, nil, br, nil, &sync.RWMutex{}, 1000, 10)
 	// the executor must not write into the caller's slices: hand over copies and compare afterwards
 	sd := &tsscommon.SignatureData{R: append([]byte{}, r...), S: append([]byte{}, s...), SignatureRecovery: append([]byte{}, rec...)}
+	before := c02Snap(ps)
 	if err := e.VerifC02ExecuteBatch(ps, 77, sd); err != nil || len(br.sigs) != 1 {
 		return nil, false
+	}
+	if !bytes.Equal(sd.R, r) || !bytes.Equal(sd.S, s) || !bytes.Equal(sd.SignatureRecovery, rec) || c02Snap(ps) != before ||
+		len(br.ps) != 1 || c02Snap(br.ps[0]) != before {
+		return nil, false // the signature data or the batch was written to, or another batch was submitted
 	}
 	return br.sigs[0], true
 }
@@ -140,7 +156,12 @@ func c02SubSig(r, s, rec []byte, ps []*transfer.TransferProposal) ([]byte, bool)
 	pl := &c02Pallet{}
 	e := subexec.NewExecutor(nil, nil, nil, pl, nil, nil, &sync.RWMutex{})
 	sd := &tsscommon.SignatureData{R: append([]byte{}, r...), S: append([]byte{}, s...), SignatureRecovery: append([]byte{}, rec...)}
+	before := c02Snap(ps)
 	if err := e.VerifC02ExecuteProposal(ps, sd); err != nil || len(pl.sigs) != 1 {
+		return nil, false
+	}
+	if !bytes.Equal(sd.R, r) || !bytes.Equal(sd.S, s) || !bytes.Equal(sd.SignatureRecovery, rec) || c02Snap(ps) != before ||
+		len(pl.ps) != 1 || c02Snap(pl.ps[0]) != before {
 		return nil, false
 	}
 	return pl.sigs[0], true
@@ -152,9 +173,18 @@ func init() {
 
 	// hash <chainId int64> <verifContract string> <version string> <props> => digest hex | err
 	ops["C02.hash"] = func(a []string) string {
-		h, err := chains.ProposalsHash(c02Props(a[3]), i64(a[0]), c02Str(a[1]), c02Str(a[2]))
+		ps := c02Props(a[3])
+		before := c02Snap(ps)
+		h, err := chains.ProposalsHash(ps, i64(a[0]), c02Str(a[1]), c02Str(a[2]))
+		if c02Snap(ps) != before {
+			return "mutated-input"
+		}
 		if err != nil {
 			return "err"
+		}
+		// a second call on the same input gives the same digest (nothing remembered, nothing consumed)
+		if h2, err2 := chains.ProposalsHash(ps, i64(a[0]), c02Str(a[1]), c02Str(a[2])); err2 != nil || !bytes.Equal(h, h2) {
+			return "unstable"
 		}
 		return hx(h)
 	}
@@ -477,4 +507,5 @@ func genC02(g *G) {
 		}
 		g.Emit("recover", []string{"evm", "sub"}[i%2], hx(g.Bytes(8)), want, utoa(uint64(g.Intn(1000))), hex.EncodeToString(g.Bytes(20)), c02RandProp(g)+";"+c02RandProp(g))
 	}
+	genC02Seq(g)
 }
